@@ -693,6 +693,8 @@ class Sum(Box):
         if other == 0:
             return self
         other = other if isinstance(other, Sum) else Sum([other])
+        if (other.dom, other.cod) != (self.dom, self.cod):
+            raise AxiomError(messages.cannot_add(self, other))
         return self.sum(self.terms + other.terms, self.dom, self.cod)
 
     def __radd__(self, other):
